@@ -149,3 +149,39 @@ Theorem rune_error_alone x : int32 x -> (fold121 x = fold121 RuneError <-> x = R
 Proof.
   intros Hx. apply alone_in_orbit; [unfold int32, RuneError; lia|exact Hx|apply nonmember_special].
 Qed.
+
+(* F9: fold-equal code points differ in encoded width by at most a factor 3,
+   and by more than a factor 2 only for U+212A (vs k/K) *)
+Definition chk_width_ratio : bool :=
+  let els := map (fun px => (Zpos (fst px) - 1, snd px)) (PositiveMap.elements R121) in
+  forallb (fun a => forallb (fun b =>
+      if snd a =? snd b then
+        (rune_len (fst a) <=? 3 * rune_len (fst b)) &&
+        ((rune_len (fst a) <=? 2 * rune_len (fst b)) || (fst a =? 8490))
+      else true) els) els.
+Lemma width_ratio121 : chk_width_ratio = true.
+Proof. vm_compute. reflexivity. Qed.
+
+Lemma member_in_elements r :
+  is_member R121 r = true -> In (r, rep R121 r) (map (fun px => (Zpos (fst px) - 1, snd px)) (PositiveMap.elements R121)).
+Proof.
+  unfold is_member, rep. destruct (r <? 0) eqn:E; [discriminate|].
+  destruct (PositiveMap.find (Z.to_pos (r + 1)) R121) as [x|] eqn:F; [|discriminate]. intros _.
+  apply PositiveMap.elements_correct in F. apply in_map_iff. exists (Z.to_pos (r + 1), x).
+  cbn [fst snd]. split; [f_equal; lia|exact F].
+Qed.
+
+Theorem width_ratio a b :
+  0 <= a <= MaxRune -> 0 <= b <= MaxRune -> 1 <= rune_len a -> 1 <= rune_len b ->
+  fold121 a = fold121 b ->
+  rune_len a <= 3 * rune_len b /\ (2 * rune_len b < rune_len a -> a = 8490).
+Proof.
+  intros Ha Hb La Lb E. apply fold121_orbit_exact in E; [|apply int32_of_rune; assumption|apply int32_of_rune; assumption].
+  destruct (is_member R121 a) eqn:Ma; destruct (is_member R121 b) eqn:Mb.
+  - pose proof width_ratio121 as C. unfold chk_width_ratio in C. rewrite forallb_forall in C.
+    specialize (C _ (member_in_elements a Ma)). rewrite forallb_forall in C.
+    specialize (C _ (member_in_elements b Mb)). cbn [fst snd] in C. rewrite E, Z.eqb_refl in C. lia.
+  - rewrite (rep_nonmember b Mb) in E. apply member_props in Ma as (_ & _ & Ma). rewrite E in Ma. congruence.
+  - rewrite (rep_nonmember a Ma) in E. apply member_props in Mb as (_ & _ & Mb). rewrite <- E in Mb. congruence.
+  - rewrite (rep_nonmember a Ma), (rep_nonmember b Mb) in E. subst. split; lia.
+Qed.
